@@ -9,7 +9,7 @@ from jax import Array
 from jaxtyping import Inexact, PyTree
 
 from .core import AbstractLinearOperator, AdditionOperator, IdentityOperator
-from .rules import AbstractBinaryRule
+from .rules import AbstractBinaryRule, NoReduction
 
 
 class AbstractBlockOperator(AbstractLinearOperator, ABC):
@@ -227,6 +227,15 @@ class AbstractBlockDiagonalRule(AbstractBinaryRule):
     ) -> list[AbstractLinearOperator]:
         assert isinstance(left, AbstractBlockOperator)  # mypy assert
         assert isinstance(right, AbstractBlockOperator)  # mypy assert
+
+        def is_leaf(x: Any) -> bool:
+            return isinstance(x, AbstractLinearOperator)
+
+        # block-wise products only make sense for identically nested containers
+        if jax.tree.structure(left.blocks, is_leaf=is_leaf) != jax.tree.structure(
+            right.blocks, is_leaf=is_leaf
+        ):
+            raise NoReduction
         return [self.reduced_class(left._tree_map(lambda l, r: l @ r, right.blocks)).reduce()]
 
 
